@@ -8,7 +8,7 @@ from __future__ import annotations
 import copy
 
 __all__ = ["unit", "native", "sym_int", "sym_bool", "sym_fixed", "sym_map", "sym_list", "assume", "check", "reach", "note",
-           "implies", "ite", "all_of", "split", "run_slice", "stub", "unstub", "snapshot", "same", "check_same", "require"]
+           "implies", "ite", "all_of", "split", "run_slice", "run_loop_part", "sym_str", "stub", "unstub", "snapshot", "same", "check_same", "require"]
 
 UNITS = {}
 MODEL = {}
@@ -221,6 +221,41 @@ def run_slice(module, qualname, if_test, env0, keep, capture_calls=(), nth=0):
         if kname not in env:
             raise slices.SliceMismatch("the slice does not define `%s`" % kname)
     return env
+
+
+def run_loop_part(module, qualname, case_value, part, env0, nth=0):
+    import ast as _ast
+    import importlib
+    from . import slices
+    m = importlib.import_module(module)
+    with open(m.__file__) as f:
+        tree = _ast.parse(f.read())
+    pre, loop, post = slices.loop_parts(tree, qualname, case_value, nth)
+    env = dict(env0)
+    g = m.__dict__
+    out = {}
+
+    def run(stmts):
+        exec(compile(_ast.fix_missing_locations(_ast.Module(list(stmts), [])), "<loop>", "exec"), g, env)
+    if part == "init":
+        run(pre)
+    elif part == "step":
+        go = bool(eval(compile(_ast.fix_missing_locations(_ast.Expression(loop.test)), "<loop>", "eval"), g, env))
+        if go:
+            run(loop.body)
+        out["__continue__"] = go
+    elif part == "exit":
+        out["__return__"] = eval(compile(_ast.fix_missing_locations(_ast.Expression(post[0].value)), "<loop>", "eval"), g, env)
+    else:
+        raise ValueError(part)
+    out.update(env)
+    return out
+
+
+def sym_str(name):
+    INPUTS[name] = ("int", 0, 10 ** 6)
+    v = int(MODEL.get(name, 0) or 0)
+    return "" if v == 0 else "".join(chr(97 + int(d)) for d in str(v))
 
 
 def split(x):
